@@ -1447,6 +1447,14 @@ func (in *Interp) binop(op token.Token, xt types.Type, a, b Value, rt types.Type
 		return in.strBinop(op, x, y)
 	case *FloatV:
 		return in.floatBinop(op, x, b.(*FloatV))
+	case *DecV:
+		if op == token.EQL || op == token.NEQ {
+			eq := in.valueEqual(a, b)
+			if op == token.EQL {
+				return eq
+			}
+			return Not(eq)
+		}
 	case PtrV:
 		y := b.(PtrV)
 		eq := ptrEqual(x, y)
@@ -1578,6 +1586,11 @@ func (in *Interp) valueEqual(a, b Value) *Term {
 		if x.Cls == DFinite {
 			if in.decide("deceq", []*Term{Not(Eq(x.Val, y.Val)), Eq(x.Val, y.Val)}) == 0 {
 				return False
+			}
+			if x.Exp != nil && y.Exp != nil {
+				// equal values: the encodings coincide exactly when the exponents do
+				// (zero keeps its sign and exponent too)
+				return BoolC(*x.Exp == *y.Exp && x.NegZ == y.NegZ)
 			}
 		}
 		return BoolC(in.choose("decrepr", 2) == 0)
